@@ -766,6 +766,126 @@ func ruleL2(c *Ctx) {
 		}
 		return true
 	})
+	// the extraction may live in a helper that returns the deltas (`dpc, dline, dcol, done :=
+	// unpackLNTEntry(x)`): the syntax then shows bare identifiers, every field looks like bits [0,16).
+	// Read the shifts from the SSA instead, across the call.
+	degenerate := len(decf) > 0
+	for _, x := range decf {
+		if !(x.lo == 0 && x.hi == 16) {
+			degenerate = false
+		}
+	}
+	if degenerate || len(decf) == 0 {
+		if fn := c.P.Func(compilePkg, "Funcode.decodeLNT"); fn != nil {
+			decf = map[string]*decField{}
+			var shifts func(v ssa.Value, depth int) (l, r int64, signed, ok bool)
+			shifts = func(v ssa.Value, depth int) (int64, int64, bool, bool) {
+				if depth > 12 {
+					return 0, 0, false, false
+				}
+				switch x := v.(type) {
+				case *ssa.Convert:
+					l, r, s, ok := shifts(x.X, depth+1)
+					if bt, isB := x.Type().Underlying().(*types.Basic); isB && bt.Kind() == types.Int16 {
+						s = true
+					}
+					return l, r, s, ok
+				case *ssa.ChangeType:
+					return shifts(x.X, depth+1)
+				case *ssa.BinOp:
+					k, isK := constInt(x.Y)
+					if !isK {
+						return 0, 0, false, false
+					}
+					l, r, s, ok := shifts(x.X, depth+1)
+					switch x.Op {
+					case token.SHL:
+						return l + k, r, s, ok
+					case token.SHR:
+						return l, r + k, s, ok
+					}
+					return 0, 0, false, false
+				case *ssa.Extract:
+					call, isCall := x.Tuple.(*ssa.Call)
+					if !isCall {
+						return 0, 0, false, false
+					}
+					h := call.Call.StaticCallee()
+					if h == nil || len(h.Blocks) == 0 {
+						return 0, 0, false, false
+					}
+					var ret *ssa.Return
+					cnt := 0
+					eachInstr(h, func(in ssa.Instruction) {
+						if rr, isR := in.(*ssa.Return); isR {
+							ret = rr
+							cnt++
+						}
+					})
+					if cnt != 1 || x.Index >= len(ret.Results) {
+						return 0, 0, false, false
+					}
+					return shifts(ret.Results[x.Index], depth+1)
+				case *ssa.Parameter, *ssa.UnOp, *ssa.Index:
+					// the raw table element
+					if bt, isB := v.Type().Underlying().(*types.Basic); isB && (bt.Kind() == types.Uint16 || bt.Kind() == types.Int16) {
+						return 0, 0, false, true
+					}
+				}
+				return 0, 0, false, false
+			}
+			eachInstr(fn, func(in ssa.Instruction) {
+				st, isSt := in.(*ssa.Store)
+				if !isSt {
+					return
+				}
+				fa, isFa := st.Addr.(*ssa.FieldAddr)
+				if !isFa {
+					return
+				}
+				add, isAdd := st.Val.(*ssa.BinOp)
+				if !isAdd || add.Op != token.ADD {
+					return
+				}
+				name := deref(fa.X.Type()).Underlying().(*types.Struct).Field(fa.Field).Name()
+				for _, o := range []ssa.Value{add.Y, add.X} {
+					if l, r, sg, ok := shifts(o, 0); ok && (l != 0 || r != 0) {
+						decf[name] = &decField{lo: r - l, hi: 16 - l, signed: sg, pos: st.Pos()}
+						break
+					}
+				}
+			})
+			// the continuation flag, in decodeLNT or the helpers it calls
+			flagIn := func(g *ssa.Function) {
+				eachInstr(g, func(in ssa.Instruction) {
+					b, isB := in.(*ssa.BinOp)
+					if !isB || b.Op != token.AND {
+						return
+					}
+					k, isK := constInt(b.Y)
+					if !isK || k <= 0 || k&(k-1) != 0 || k >= 1<<15 {
+						return
+					}
+					if bt, ok := b.X.Type().Underlying().(*types.Basic); !ok || (bt.Kind() != types.Uint16 && bt.Kind() != types.Int16) {
+						return
+					}
+					sh := int64(0)
+					for (k >> sh) != 1 {
+						sh++
+					}
+					decf[fmt.Sprintf("flag bit %d", sh)] = &decField{lo: sh, hi: sh + 1, pos: b.Pos()}
+				})
+			}
+			flagIn(fn)
+			eachInstr(fn, func(in ssa.Instruction) {
+				if call, ok := in.(*ssa.Call); ok {
+					if h := call.Call.StaticCallee(); h != nil && fnPkgPath(h) == fnPkgPath(fn) && len(h.Blocks) > 0 {
+						flagIn(h)
+					}
+				}
+			})
+		}
+	}
 	// match encoder and decoder fields by the bits they occupy (names are for messages only)
 	usedDec := map[string]bool{}
 	for _, f := range fs {
